@@ -12,9 +12,9 @@ import (
 func init() {
 	register(&PropDef{
 		ID: "C05", Level: "exploration", Quick: 3000, Thorough: 300000, QuickCap: 100,
-		Rule: "each run = one engine, a drawn table (2-6 rows x 1-3 families x several columns and versions, binary qualifiers and values) and 8 filtered ReadRows: one directed leaf filter (17 kinds x valid/invalid, visited by seeded permutation), one directed depth-2 composition (chain/interleave/condition x leaf x leaf, by permutation), the rest random trees of depth <= 3 with boundary arguments; every returned row is compared with the evaluator's admissible outputs; distinct = hash of (engine, filter shapes); non-trivial = a filter with at least one composite node or an invalid argument",
-		Real: []string{"bttest ReadRows, filterRow, includeCell, modifyCell, newRegexp (binaryregexp)", "all three engines"},
-		Stub: []string{"gRPC transport", "the row-sample random source (drawn from the rng stream)"},
+		Rule:   "each run = one engine, a drawn table (2-6 rows x 1-3 families x several columns and versions, binary qualifiers and values) and 8 filtered ReadRows: one directed leaf filter (17 kinds x valid/invalid, visited by seeded permutation), one directed depth-2 composition (chain/interleave/condition x leaf x leaf, by permutation), the rest random trees of depth <= 3 with boundary arguments; every returned row is compared with the evaluator's admissible outputs; distinct = hash of (engine, filter shapes); non-trivial = a filter with at least one composite node or an invalid argument",
+		Real:   []string{"bttest ReadRows, filterRow, includeCell, modifyCell, newRegexp (binaryregexp)", "all three engines"},
+		Stub:   []string{"gRPC transport", "the row-sample random source (drawn from the rng stream)"},
 		Assume: []string{"family order and the order of equal-timestamp duplicates after an interleave are unspecified (compared as multisets)", "count-sensitive filters are not generated after an interleave in a chain", "filters whose validity the statement leaves open (limit 0, start > end ranges, strip_value=false) may be rejected or return nothing", "an invalid node that evaluation never reaches may be rejected (eager) or ignored (lazy)", "no 0x0a byte in data or patterns"},
 		Run:    runC05,
 		Subspaces: func() map[string]int {
